@@ -135,6 +135,20 @@ PROPS["C09"] = {
     "assumptions": ["the 16-bit part-count boundary of the message-box swarm (over a million bytes over a tiny transport) is not reached"],
 }
 
+ASK_STACKS = ["mem", "mbapp/sim", "mbapp/mem", "askmux-string/mem", "askmux-varint/mbapp/sim",
+              "multi/mbapp/mem+mbapp/sim", "wl/mbapp/sim", "wl/mem", "mbapp/p2pke/sim", "mbapp/frag/mem"]
+
+PROPS["C11"] = {
+    "pkg": "stk", "env": {"SIM_PROP": "C11"}, "legs": ASK_STACKS,
+    "runs": {"quick": 2000, "thorough": 150000}, "budget": {"quick": 200, "thorough": 2400},
+    "rule": "one run = one ask-capable stack (10 stacks: in-memory, message-box over simulated network / in-memory / fragmenting / P2PKE, ask-multiplexers, multi-transport, whitelisted) on 2-4 nodes with 1-4 concurrent askers and 1-3 servers per node; unique requests, handlers produce a unique response per (request, server, invocation); negative returns, too-small buffers, response sizes around buffer size and MTU, context deadlines 2 s..3 min of simulated time, a destination closed at a random step; loss/duplication/reordering of request and multi-part response datagrams; "
+            "non-trivial = at least one ask returned exactly its handler's answer, at least one fault fired, several tasks runnable at once; distinct = distinct scheduler decision traces",
+    "components": TIER_A,
+    "level_text": "seeded exploration of schedules and faults; every returned Ask is compared with the ledger of what its own handler invocations produced (exact bytes; error required after negative return / closed destination / too-small buffer); at every quiescent point an Ask past its deadline must have returned",
+    "level_note": "trusted: instrumenter, scheduler, simulated network, ask ledger; QUIC and SSH asks are not in this leg",
+    "assumptions": ["'within the context's deadline' = returned by the first quiescent point at or after the deadline"],
+}
+
 NOT_APPLICABLE = {
     "C17": "pure functions of their input (key/peer-id marshal, parse, equality, fingerprint): no schedule, clock, fault or second party for a simulator to vary; see DESIGN.md §7",
 }
